@@ -15,7 +15,7 @@ import vf, args
 VT = ["1.0.0", "1.0.1", "1.1.0", "2.0.0-rc", "2.0.0", "2.1.0", "3.0.0"]
 MY_FINDINGS = ["C11-relax-prerelease-caret", "C12-explicit-introduced", "C11-update-nil-range",
                "C11-override-ineffective-pin-loop", "C11-override-unfixing-patch", "C11-update-maven-hard-range",
-               "C11-override-maven-hard-range"]
+               "C11-override-maven-hard-range", "C11-override-combined-hard-range"]
 
 GEN_QUICK = ["Remediation-relax-levels-quick.cfg", "Remediation-relax-options-quick.cfg",
              "Remediation-override-levels-quick.cfg", "Remediation-override-options-quick.cfg",
@@ -226,7 +226,8 @@ def classify(case, f):
         return "C11-update-maven-hard-range"
     if (f["kind"] in ("not-upward", "level-exceeded") and o["strategy"] == "override" and d.get("update")
             and d["update"]["From"][:1] in ("[", "(") and hard_involved(sc, d["update"])):
-        return "C11-override-maven-hard-range"
+        # judged over several applied patches together: a defect of the combination, not of the single override
+        return "C11-override-combined-hard-range" if len(d.get("combination") or []) >= 2 else "C11-override-maven-hard-range"
     return None
 
 
@@ -335,7 +336,14 @@ def designed_cases():
               "vulns": [{"id": "V1", "pkg": "pkg:c", "events": [["introduced", "0"], ["fixed", "1.0.2"]], "sev": "high"}],
               "opts": dict(base_opts("maven-override"), levels={"": lvl})}
         out.append({"fam": "Remediation", "cfg": "designed", "scenario": sc, "devs": [], "model": None, "id": vf.case_id(sc)})
+    # Maven: two applied patches, one of which upgrades a direct dependency to a version that carries a hard range on the
+    # package the other one overrides (witness of the open finding C11-override-combined-hard-range, found by a random universe)
+    sc = json.loads(COMBINED_WITNESS)
+    out.append({"fam": "Remediation", "cfg": "designed", "scenario": sc, "devs": [], "model": None, "id": vf.case_id(sc)})
     return out
+
+
+COMBINED_WITNESS = '{"eco": "Maven", "manifest": [{"group": "", "name": "pkg:a", "req": "1.0.0"}, {"group": "", "name": "pkg:b", "req": "[3.0.1-rc1,3.1.0)"}], "opts": {"devDeps": true, "explicit": [], "ignore": [], "ignoreDev": false, "levels": {"": "major"}, "maxDepth": 1, "maxUpgrades": 2, "minSeverity": 0, "mode": "fix", "noIntroduce": false, "strategy": "override"}, "universe": [{"name": "pkg:a", "versions": [{"deps": [], "latest": true, "v": "1.0.0"}, {"deps": [["pkg:b", "[2.0.1-rc1,2.1.0)"]], "latest": false, "v": "1.1.2-rc2"}, {"deps": [["pkg:b", "[0,)"]], "latest": false, "v": "1.2.2-rc1"}]}, {"name": "pkg:b", "versions": [{"deps": [], "latest": false, "v": "2.0.0"}, {"deps": [], "latest": false, "v": "2.0.1-rc1"}, {"deps": [], "latest": false, "v": "3.0.0"}, {"deps": [], "latest": false, "v": "3.0.1-rc1"}, {"deps": [], "latest": false, "v": "3.1.2-rc2"}, {"deps": [], "latest": true, "v": "3.1.2"}]}], "vulns": [{"events": [["introduced", "1.0.0"], ["fixed", "1.1.2-rc2"]], "id": "V1", "pkg": "pkg:a", "sev": "high"}, {"events": [["introduced", "2.0.0"], ["fixed", "3.1.2"]], "id": "V2", "pkg": "pkg:b", "sev": "high"}, {"events": [["introduced", "2.0.0"], ["fixed", "3.1.2"]], "id": "V3", "pkg": "pkg:b", "sev": ""}, {"events": [["introduced", "2.0.1-rc1"], ["fixed", "3.1.2-rc2"]], "id": "V4", "pkg": "pkg:b", "sev": ""}]}'
 
 
 def select(ck, cases):
